@@ -477,7 +477,7 @@ class Gen:
                 for b in bodies:
                     prog += b
         # hostile endings (rare): a conditional branch, or a call, as the very last instruction
-        if self.p["hostile_layout"] and prog and prog[-1] == ("return",) and len(prog) >= 2 and prog[-2] == ("int", 1):
+        if self.p["hostile_layout"] and self.p.get("hostile_endings", True) and prog and prog[-1] == ("return",) and len(prog) >= 2 and prog[-2] == ("int", 1):
             in_main_tail = (not self.subs) or ("subs_first" in self.features)
             if in_main_tail and self.chance(0.06):
                 top = self.lab("TOP")
